@@ -18,6 +18,37 @@ CONTRACT_MODULES = ["gen_hc", "algos_run"]
 PROP_MODULES = {}      # property -> modules to import (default: all)
 
 
+def _assumption_scan(ks):
+    """mechanical scan, on every run, for what is ASSUMED rather than proved: `assume(...)` / `fact(...)` call sites in the sidecar
+    contract modules of this property (preconditions, trusted lemma instances) and in the engine's models (kernel axioms: svd / qr / eig /
+    argmax / sqrt / sums ...), plus the contracts that are abstracted at call sites (verify_body = False: havoc / recorders)"""
+    import inspect
+    import re
+    pat = re.compile(r"\b(?:c|c2|cur\(\))\.(assume|fact)\(")
+    mods = sorted({type(k).__module__ for k in ks})
+    sites = []
+    for m in mods:
+        try:
+            src = inspect.getsource(sys.modules[m]).splitlines()
+        except Exception:
+            continue
+        for i, ln in enumerate(src, 1):
+            mm = pat.search(ln)
+            if mm:
+                sites.append(f"{m.replace('contracts.', 'contracts/')}.py:{i}: {mm.group(1)}: {ln.strip()[:110]}")
+    engine = {}
+    for fn in sorted(os.listdir(os.path.join(ROOT, "pyvc"))):
+        if fn.endswith(".py"):
+            n = sum(1 for ln in open(os.path.join(ROOT, "pyvc", fn)) if pat.search(ln))
+            if n:
+                engine["pyvc/" + fn] = n
+    from pyvc import contract as K
+    abstracted = sorted({kk.ident for lst in K.REGISTRY.values() for kk in lst if not getattr(kk, "verify_body", True)
+                         and any(kk.qualname in getattr(k, "use", {}) for k in ks)})
+    return {"contract_sites": sites, "contract_site_count": len(sites), "engine_axiom_sites_per_file": engine,
+            "callee_contracts_used_without_body_proof_here": abstracted}
+
+
 def load_contracts():
     sys.path.insert(0, ROOT)
     from pyvc import contract as K
@@ -390,6 +421,7 @@ def main(argv=None):
         samples = [{"id": o["id"], "path": o["path"], "status": o["status"], "smt2_head": o.get("smt2_head", "")[:400]}
                    for r, o in all_obl if "smt2_head" in o][:3]
         from pyvc import trusted
+        ev_scan = _assumption_scan(ks)
         ev = {
             "property_id": prop, "tier": tier, "seed": seed, "level": "proof",
             "coverage": {
@@ -415,6 +447,7 @@ def main(argv=None):
                                           violations=len(r["bounded"]["violations"]),
                                           known_failing=[x for x in known_bounded if x.startswith(r["ident"] + "/")]) for r in results if r.get("bounded")],
                 "not_decided_clauses": trusted.not_decided(prop),
+                "assumption_scan": ev_scan,
                 "tree": tree,
             },
             "assumptions": trusted.assumptions(prop) + sorted({x for r in results for x in r["assumptions"]}),
